@@ -108,7 +108,7 @@ def class_queries(rng, u):
 
 def gen_cases(rng, tier):
     cases = []
-    n_uni = 14 if tier == "quick" else 500
+    n_uni = 20 if tier == "quick" else 500
     per = 5 if tier == "quick" else 8
     for _ in range(n_uni):
         u = gen_universe(rng)
